@@ -10,7 +10,10 @@ Fault record (JSON): {"kind": "HARD_KILL" | "SOFT_INTERRUPT", "scope": "tool" | 
                       "at": k}                      k-th traced line event (0-based), or
                      {..., "anchor": "save_begin" | "save_end" | "getitem" | "read", "occurrence": m, "offset": j}
 scope "tool": line events of signals_to_torch_feat_dir and _FeatureProcessorDataset.__getitem__;
-scope "deep": additionally the Python frames of torch/serialization.py.
+scope "deep": additionally the Python frames of torch/serialization.py;
+scope "creturn": the k-th return from a C call (print, torch.save, os.path.join, ...) made by those frames, observed
+with sys.setprofile - the instant at which a signal that arrived during the call is delivered (soft interrupts only
+differ from the next line event when the call sits inside a try block).
 """
 import builtins
 import gc
@@ -68,6 +71,12 @@ class _Tracer(object):
         if fault and "at" in fault and "anchor" not in fault:
             self.want_abs = int(fault["at"])
         self.count_deep = bool(fault and fault.get("scope") == "deep")
+        # returns from C calls (print, torch.save, ...) made by the traced frames: where a signal that arrived
+        # during the call is actually delivered - inside whatever try block the call sits in
+        self.ccount = 0
+        self.want_creturn = int(fault["at"]) if (fault and fault.get("scope") == "creturn") else None
+        if self.want_creturn is not None:
+            self.want_abs = None
 
     def log(self, *parts):
         os.write(self.logfd, (" ".join(str(p) for p in parts) + "\n").encode())
@@ -99,6 +108,13 @@ class _Tracer(object):
         if co in self.codes or (self.count_deep and co.co_filename in self.deep_files):
             return self.local_trace
         return None
+
+    def profile(self, frame, event, arg):
+        if event == "c_return" and frame.f_code in self.codes:
+            k = self.ccount
+            self.ccount = k + 1
+            if self.want_creturn is not None and k == self.want_creturn and not self.fired:
+                self._fire()
 
     def local_trace(self, frame, event, arg):
         if event == "line":
@@ -139,7 +155,7 @@ def run_tool(tool, argv, cwd, fault=None, knobs=None, logname="events.log", coun
         ex = -os.WTERMSIG(st)
     else:
         ex = os.WEXITSTATUS(st)
-    events, points, killed = [], None, None
+    events, points, killed, cpoints = [], None, None, 0
     try:
         with open(logpath) as f:
             for line in f:
@@ -152,6 +168,7 @@ def run_tool(tool, argv, cwd, fault=None, knobs=None, logname="events.log", coun
                     killed = (p[1], int(p[2]))
                 elif p[0] == "P":
                     points = int(p[1])
+                    cpoints = int(p[2]) if len(p) > 2 else 0
                 elif p[0] == "X":
                     events.append(("exception", " ".join(p[1:]), -1))
     except IOError:
@@ -160,7 +177,7 @@ def run_tool(tool, argv, cwd, fault=None, knobs=None, logname="events.log", coun
         os.unlink(logpath)
     except OSError:
         pass
-    return {"exit": ex, "events": events, "points": points, "killed": killed}
+    return {"exit": ex, "events": events, "points": points, "killed": killed, "cpoints": cpoints}
 
 
 def _child_main(tool, argv, cwd, fault, knobs, logpath, count_deep):
@@ -251,10 +268,12 @@ def _child_main(tool, argv, cwd, fault, knobs, logpath, count_deep):
     code = None
     soft = False
     sys.settrace(tr.global_trace)
+    sys.setprofile(tr.profile)
     try:
         try:
             code = entry(list(argv))
         finally:
+            sys.setprofile(None)
             sys.settrace(None)
     except KeyboardInterrupt:
         soft = True
@@ -273,10 +292,10 @@ def _child_main(tool, argv, cwd, fault, knobs, logpath, count_deep):
         except Exception:
             pass
         gc.collect()
-        tr.log("P", tr.count)
+        tr.log("P", tr.count, tr.ccount)
         return EXIT_SOFT
     gc.collect()
-    tr.log("P", tr.count)
+    tr.log("P", tr.count, tr.ccount)
     if code is None:
         code = 0
     return int(code) if 0 <= int(code) < 64 else 63
